@@ -165,7 +165,7 @@ PATTERN_WS = r"[\s\t\n]*"
 PATTERN_COMMA = r"(?:\s*,\s*|\s+|(?=-))"
 PATTERN_COMMAWSP = r"[ ,\t\n\x09\x0A\x0C\x0D]+"
 PATTERN_FLOAT = r"[-+]?[0-9]*\.?[0-9]+(?:[eE][-+]?[0-9]+)?"
-PATTERN_LENGTH_UNITS = "cm|mm|Q|in|pt|pc|px|em|cx|ch|rem|vw|vh|vmin|vmax"
+PATTERN_LENGTH_UNITS = "cm|mm|Q|in|pt|pc|px|em|ex|ch|rem|vw|vh|vmin|vmax"
 PATTERN_ANGLE_UNITS = "deg|grad|rad|turn"
 PATTERN_TIME_UNITS = "s|ms"
 PATTERN_FREQUENCY_UNITS = "Hz|kHz"
